@@ -87,15 +87,28 @@ theorem all_range_map (n : Nat) (f : Nat → Rat) (p : Rat → Bool) :
 
 theorem normIdx_neg1 (n : Nat) : normIdx (n + 1) (-1) = n := by simp [normIdx]; omega
 
+/-- the two halves of the bottom-row check (the source may test them together, one after the other, or negated) -/
+def rowClose (M : Mat (d + 1)) : Bool := (List.finRange d).all fun j => closeTo (M (Fin.last d) j.castSucc) 0
+def cornerClose (M : Mat (d + 1)) : Bool := closeTo (M (Fin.last d) (Fin.last d)) 1
+
+theorem bottomClose_eq (M : Mat (d + 1)) : bottomClose M = (rowClose M && cornerClose M) := rfl
+
+theorem rowClose_sq (e : Nat → Nat → Rat) :
+    npAllclose (Arr2.lastRowInit (sq (d + 1) e)) 0 = rowClose ((sq (d + 1) e).toMat (d + 1)) := by
+  unfold rowClose npAllclose
+  show ((List.range d).map fun j => e d j).all _ = _
+  rw [all_range_map]; rfl
+
+theorem cornerClose_sq (e : Nat → Nat → Rat) :
+    npAllclose (Arr2.at (sq (d + 1) e) (-1) (-1)) 1 = cornerClose ((sq (d + 1) e).toMat (d + 1)) := by
+  unfold cornerClose npAllclose
+  show closeTo (e (normIdx (d + 1) (-1)) (normIdx (d + 1) (-1))) 1 = _
+  rw [normIdx_neg1]; rfl
+
 theorem bottom_sq (e : Nat → Nat → Rat) :
     (npAllclose (Arr2.lastRowInit (sq (d + 1) e)) 0 && npAllclose (Arr2.at (sq (d + 1) e) (-1) (-1)) 1)
       = bottomClose ((sq (d + 1) e).toMat (d + 1)) := by
-  unfold bottomClose npAllclose
-  congr 1
-  · show ((List.range d).map fun j => e d j).all _ = _
-    rw [all_range_map]; rfl
-  · show closeTo (e (normIdx (d + 1) (-1)) (normIdx (d + 1) (-1))) 1 = _
-    rw [normIdx_neg1]; rfl
+  rw [rowClose_sq, cornerClose_sq, bottomClose_eq]
 
 theorem exc_bind_pure' {ε α} (x : Except ε α) : (x.bind fun r => .ok r) = x := by cases x <;> rfl
 
@@ -104,8 +117,11 @@ theorem genSetHFull_Affine_fresh (c : HCls) (e : Nat → Nat → Rat) (copy skip
     genSetHFull_Affine MT T2 ⟨c, none⟩ (sq (d + 1) e) copy skip =
       if skip || affineChecks ((sq (d + 1) e).toMat (d + 1)) then .ok ⟨c, some (sq (d + 1) e)⟩ else .error .shape := by
   unfold genSetHFull_Affine affineChecks
+  rw [bottomClose_eq]
   cases skip <;> cases copy <;>
-    simp [pyIn_23, pyIn_23', bottom_sq, DObj.setH] <;> (repeat' split) <;> simp_all
+    simp [pyIn_23, pyIn_23', rowClose_sq, cornerClose_sq, DObj.setH] <;>
+    (cases rowClose ((sq (d + 1) e).toMat (d + 1)) <;> cases cornerClose ((sq (d + 1) e).toMat (d + 1)) <;>
+      (repeat' split) <;> simp_all)
 
 /-- what every `_set_h_matrix` does to an object that has no matrix yet -/
 def setSpec (c : HCls) (a : Arr2) (skip : Bool) : Except Err DObj :=
